@@ -1,14 +1,14 @@
 ----------------------------- MODULE MC_Curved -----------------------------
 EXTENDS Curved
 \* 1/40 and 1/1000 against the other bases give needles of aspect ratio up to 2000 (the property speaks of needle/disc limits)
-BasesQ == {<<1, 1>>, <<2, 1>>, <<1, 2>>, <<5, 3>>, <<1, 1000>>}
-BasesT == {<<1, 1>>, <<2, 1>>, <<1, 2>>, <<5, 3>>, <<10, 1>>, <<3, 5>>, <<1, 40>>, <<1, 1000>>}
+BasesQ == {<<1, 1>>, <<5, 3>>, <<1, 2>>, <<1, 1000>>, <<1000, 1>>}        \* aspect ratios up to 1e6 (needles and discs)
+BasesT == {<<1, 1>>, <<2, 1>>, <<1, 2>>, <<5, 3>>, <<10, 1>>, <<3, 5>>, <<1, 40>>, <<1, 1000>>, <<1000, 1>>}
 EpsQ == {0, 12}
 EpsT == {0, 9, 15}
 CentresQ == { <<<<0, 1>>, <<0, 1>>, <<0, 1>>>>, <<<<3, 1>>, <<-5, 2>>, <<7, 3>>>>, <<<<-20, 1>>, <<11, 1>>, <<-4, 1>>>> }
 CentresT == CentresQ \cup { <<<<-1, 3>>, <<-2, 1>>, <<-9, 4>>>>, <<<<6, 1>>, <<8, 1>>, <<0, 1>>>>, <<<<0, 1>>, <<-30, 1>>, <<1, 7>>>>,
                             <<<<-7, 2>>, <<5, 1>>, <<2, 1>>>>, <<<<4, 1>>, <<-3, 1>>, <<-12, 1>>>> }
 ClassesAll == {"Circle", "Ellipse", "Sphere", "Ellipsoid"}
-ScalesQ == {-3, 0, 3}
-ScalesT == {-3, -2, -1, 0, 1, 2, 3}
+ScalesQ == {-7, -3, 0, 3}          \* 1e-7: absolute tolerances (1e-8) are a tenth of the shape
+ScalesT == {-7, -3, -2, -1, 0, 1, 2, 3}
 =============================================================================
